@@ -31,6 +31,15 @@ def check(prog, run):
     gram(prog, run)
     units(prog, run)
     pad(prog, run)
+    # pLSCF.result after run(): each pole table of the result holds the table of the same kind returned by pLSCF_poles, every criterion
+    # reaches it, and the criterion masks are applied as boolean selections (rules shared with C09)
+    from . import C09
+    from .. import maskkind
+    run.rule("R-result", "pLSCF.run / pLSCF_MS.run: result pole tables = tables of the same kind from pLSCF_poles, filtered by every criterion with boolean selections", 8)
+    cls_ = [("algorithms.plscf.pLSCF", "per", False), ("algorithms.plscf.pLSCF_MS", "per", False)]
+    C09.slot_provenance(prog, run, "R-result", classes=cls_)
+    C09.classes_rules(prog, run, cls_, {"reach": "R-result", "bind": "R-result"})
+    maskkind.obligations(prog, run, "R-result", ("pyoma2.algorithms.plscf",))
 
 
 def _is_nan(prog, pf, e):
